@@ -570,15 +570,17 @@ def encodeUserid : UserId → Text × Text
 
 def remoteAddr (cfg : Cfg) (req : Req) : Text := if cfg.includeIp then req.remoteAddr else ['0', '.', '0', '.', '0', '.', '0']
 
-/-- `AuthTktCookieHelper.remember(request, userid, max_age, tokens)` -/
-def remember (env : Env) (cfg : Cfg) (req : Req) (st : St) (userid : UserId) (maxAge : Option Nat) (tokens : List Tok) :
+/-- `AuthTktCookieHelper.remember(request, userid, max_age, tokens)`.  `internal` = the call `identify` makes for a
+reissue (`request._authtkt_reissuing` is set around it): only an application call revokes a reissue -/
+def remember (env : Env) (cfg : Cfg) (req : Req) (st : St) (internal : Bool) (userid : UserId) (maxAge : Option Nat)
+    (tokens : List Tok) :
     Res (List SetCookie) × St :=
   let (tag, uid) := encodeUserid userid
   let userData := userIdTypePrefix ++ tag
   match checkTokens tokens with
   | .error e => (.error e, st)
   | .ok toks =>
-    let st' := if st.reissued then { st with revoked := true } else st
+    let st' := if internal then st else { st with revoked := true }
     match cookieValue env cfg.secret uid (remoteAddr cfg req) toks userData req.clock with
     | .error e => (.error e, st')
     | .ok v => (getCookies cfg req (some v) maxAge, st')
@@ -670,7 +672,7 @@ def identify (env : Env) (cfg : Cfg) (req : Req) (st : St) : Res (Option Identit
           let tokens := splitAll ',' p.tokens
           if reissueDue cfg st req.now p.ts then
             let tokens := tokens.filter (!·.isEmpty)
-            match remember env cfg req st userid cfg.maxAge (tokens.map .str) with
+            match remember env cfg req st true userid cfg.maxAge (tokens.map .str) with
             | (.error e, st') => (.error e, st')
             | (.ok headers, st') =>
               (pure (some ⟨p.ts, userid, tokens, p.userData⟩),
@@ -697,7 +699,7 @@ inductive OpResult where
 
 def step (env : Env) (cfg : Cfg) (req : Req) (st : St) : Op → OpResult × St
   | .identify => let (r, s) := identify env cfg req st; (.identity r, s)
-  | .remember u m t => let (r, s) := remember env cfg req st u m t; (.headers r, s)
+  | .remember u m t => let (r, s) := remember env cfg req st false u m t; (.headers r, s)
   | .forget => let (r, s) := forget cfg req st; (.headers r, s)
 
 def runOps (env : Env) (cfg : Cfg) (req : Req) : St → List Op → List OpResult × St
